@@ -737,7 +737,9 @@ func (h *verifC07) exploreDir(lr *verifLayerRun, job verifDirJob) []verifDirJob 
 		adopt := 0
 		r := verifLookup(n, name)
 		out.Count("lookup")
-		if r.ok && name != "" && name != "." && name != ".." && r.kind != "state" && rnd.Intn(3) == 0 {
+		// the hidden state directory is adopted after its first successful lookup in every layer (the bridge
+		// registers every inode a Lookup returns); ordinary children at random
+		if r.ok && name != "" && name != "." && name != ".." && (rnd.Intn(3) == 0 || (r.kind == "state" && !adopted[name])) {
 			// what go-fuse's bridge does after a successful Lookup (rawBridge.addNewChild)
 			if n.EmbeddedInode().AddChild(name, r.in, true) {
 				adopt = 1
@@ -865,7 +867,31 @@ func (h *verifC07) exploreDir(lr *verifLayerRun, job verifDirJob) []verifDirJob 
 			}
 		}
 		isOvl := name == "trusted.overlay.opaque" || name == "user.overlay.opaque"
-		if _, own := xattrsOfDir[name]; isOvl && !own {
+		ownVal, own := xattrsOfDir[name]
+		if isOvl && errno == 0 {
+			opq[name] = string(dest[:nb]) == "y"
+		}
+		if isOvl && own {
+			// the entry's own header carries an overlay xattr: an opaque directory still answers exactly "y"
+			// for the configured names; otherwise the header's value shows through
+			want := ownVal
+			if inMode && expOpaque {
+				want = "y"
+			}
+			switch {
+			case errno == 0 && string(dest[:nb]) != want:
+				sig := "xattr-value-wrong"
+				if inMode && expOpaque {
+					sig = "opaque-xattr-not-y"
+				}
+				h.fail(sig, w+fmt.Sprintf(": %s, want value %q (entry's own header says %q, opaque=%v, mode=%s)", res, want, ownVal, expOpaque, lr.b.om))
+			case errno == syscall.ERANGE && (dl >= len(want) || int(nb) != len(want)):
+				h.fail("opaque-xattr-not-y", w+fmt.Sprintf(": %s, want value %q", res, want))
+			case errno != 0 && errno != syscall.ERANGE:
+				h.fail("xattr-lost", w+": "+res)
+			}
+		}
+		if isOvl && !own {
 			answered := errno == 0 || errno == syscall.ERANGE
 			switch {
 			case inMode && expOpaque && !answered:
@@ -878,9 +904,6 @@ func (h *verifC07) exploreDir(lr *verifLayerRun, job verifDirJob) []verifDirJob 
 				h.fail("opaque-xattr-on-non-opaque-dir", w+": "+res)
 			case !inMode && answered:
 				h.fail("opaque-xattr-outside-configured-mode", w+": "+res)
-			}
-			if errno == 0 && string(dest[:nb]) == "y" {
-				opq[name] = true
 			}
 		}
 	}
@@ -1058,6 +1081,12 @@ func (h *verifC07) exploreDir(lr *verifLayerRun, job verifDirJob) []verifDirJob 
 			doGetattr()
 		}
 	}
+	if isRoot {
+		// the state directory resolves on EVERY lookup, also once go-fuse holds it as a child of the root
+		doLookup(stateDirName)
+		doLookup(stateDirName)
+		doLookup(stateDirName)
+	}
 	if len(raw) > 12 {
 		// big directory: several fresh, un-memoised nodes of the same directory
 		out.Count("big-dir")
@@ -1180,6 +1209,7 @@ func (h *verifC07) exploreState(lr *verifLayerRun) {
 	}
 	wantName := sv.Digest + ".json"
 	var sf fusefs.InodeEmbedder // the stat file node, once a Lookup returned it
+	reported := false
 	stLookup := func(name string) {
 		var eo2 fuse.EntryOut
 		in, errno := st.(fusefs.NodeLookuper).Lookup(context.Background(), name, &eo2)
@@ -1205,7 +1235,76 @@ func (h *verifC07) exploreState(lr *verifLayerRun) {
 			}
 		}
 		if errno == 0 && name == wantName {
+			if sf == nil {
+				// what the bridge does with the inode a Lookup returned
+				st.EmbeddedInode().AddChild(wantName, in, true)
+			}
 			sf = in.Operations()
+		}
+	}
+	stRead := func() {
+		if sf == nil {
+			stLookup(wantName)
+		}
+		if sf == nil {
+			return // size 0: the stat file cannot even be looked up (EIO, compared above)
+		}
+		if sv.SetFetched == nil {
+			out.Emit(fmt.Sprintf("st.fetched %d", sv.Fetched()), "ok") // tell the model the blob's current value
+		}
+		want := sv.Fetched()
+		buf := make([]byte, 8192)
+		rres, errno := sf.(fusefs.NodeReader).Read(context.Background(), nil, buf, 0)
+		if errno != 0 {
+			out.Emit("st.read", "eio")
+			if sv.Size > 0 {
+				h.fail("statfile-unreadable", fmt.Sprintf("statFile.Read errno %d", int(errno)))
+			}
+			return
+		}
+		data, _ := rres.Bytes(nil)
+		var m map[string]json.RawMessage
+		dec := json.NewDecoder(strings.NewReader(string(data)))
+		if err := dec.Decode(&m); err != nil {
+			out.Emit("st.read", "invalid-json")
+			h.fail("statfile-invalid-json", fmt.Sprintf("%q: %v", data, err))
+			return
+		}
+		var keys []string
+		for k := range m {
+			keys = append(keys, k)
+		}
+		sort.Strings(keys)
+		get := func(k string, str bool) string {
+			v, ok := m[k]
+			if !ok {
+				return "missing"
+			}
+			if str {
+				var s string
+				if json.Unmarshal(v, &s) != nil {
+					return "notstring"
+				}
+				return verifHex(s)
+			}
+			return string(v)
+		}
+		out.Emit("st.read", fmt.Sprintf("keys=%s digest=%s size=%s fetchedSize=%s error=%s", strings.Join(keys, ","),
+			get("digest", true), get("size", false), get("fetchedSize", false), get("error", true)))
+		// ---- oracle: valid JSON reporting digest, size and fetched size, and no error nobody reported ----
+		var sj struct {
+			Digest      *string `json:"digest"`
+			Size        *int64  `json:"size"`
+			FetchedSize *int64  `json:"fetchedSize"`
+			Error       *string `json:"error"`
+		}
+		if err := json.Unmarshal(data, &sj); err != nil || sj.Digest == nil || sj.Size == nil || sj.FetchedSize == nil {
+			h.fail("statfile-field-missing", fmt.Sprintf("%q", data))
+		} else if *sj.Digest != sv.Digest || *sj.Size != sv.Size || *sj.FetchedSize != want {
+			h.fail("statfile-wrong-values", fmt.Sprintf("%q, want digest=%s size=%d fetchedSize=%d", data, sv.Digest, sv.Size, want))
+		}
+		if sj.Error != nil && !reported {
+			h.fail("statfile-spurious-error", fmt.Sprintf("the layer reports an error although every call succeeded: %q", data))
 		}
 	}
 	nsteps := 2 + rnd.Intn(4)
@@ -1236,65 +1335,7 @@ func (h *verifC07) exploreState(lr *verifLayerRun) {
 			}
 			stLookup(name)
 		case 2:
-			if sf == nil {
-				stLookup(wantName)
-			}
-			if sf == nil {
-				continue // size 0: the stat file cannot even be looked up (EIO, compared above)
-			}
-			if sv.SetFetched == nil {
-				out.Emit(fmt.Sprintf("st.fetched %d", sv.Fetched()), "ok") // tell the model the blob's current value
-			}
-			want := sv.Fetched()
-			buf := make([]byte, 8192)
-			rres, errno := sf.(fusefs.NodeReader).Read(context.Background(), nil, buf, 0)
-			if errno != 0 {
-				out.Emit("st.read", "eio")
-				if sv.Size > 0 {
-					h.fail("statfile-unreadable", fmt.Sprintf("statFile.Read errno %d", int(errno)))
-				}
-				continue
-			}
-			data, _ := rres.Bytes(nil)
-			var m map[string]json.RawMessage
-			dec := json.NewDecoder(strings.NewReader(string(data)))
-			if err := dec.Decode(&m); err != nil {
-				out.Emit("st.read", "invalid-json")
-				h.fail("statfile-invalid-json", fmt.Sprintf("%q: %v", data, err))
-				continue
-			}
-			var keys []string
-			for k := range m {
-				keys = append(keys, k)
-			}
-			sort.Strings(keys)
-			get := func(k string, str bool) string {
-				v, ok := m[k]
-				if !ok {
-					return "missing"
-				}
-				if str {
-					var s string
-					if json.Unmarshal(v, &s) != nil {
-						return "notstring"
-					}
-					return verifHex(s)
-				}
-				return string(v)
-			}
-			out.Emit("st.read", fmt.Sprintf("keys=%s digest=%s size=%s fetchedSize=%s error=%s", strings.Join(keys, ","),
-				get("digest", true), get("size", false), get("fetchedSize", false), get("error", true)))
-			// ---- oracle: valid JSON reporting digest, size and fetched size ----
-			var sj struct {
-				Digest      *string `json:"digest"`
-				Size        *int64  `json:"size"`
-				FetchedSize *int64  `json:"fetchedSize"`
-			}
-			if err := json.Unmarshal(data, &sj); err != nil || sj.Digest == nil || sj.Size == nil || sj.FetchedSize == nil {
-				h.fail("statfile-field-missing", fmt.Sprintf("%q", data))
-			} else if *sj.Digest != sv.Digest || *sj.Size != sv.Size || *sj.FetchedSize != want {
-				h.fail("statfile-wrong-values", fmt.Sprintf("%q, want digest=%s size=%d fetchedSize=%d", data, sv.Digest, sv.Size, want))
-			}
+			stRead()
 		case 3:
 			if sv.SetFetched == nil {
 				continue
@@ -1308,9 +1349,15 @@ func (h *verifC07) exploreState(lr *verifLayerRun) {
 			}
 			msg := fmt.Sprintf("verif-%d \"quoted\" \\ <é>", rnd.Intn(1000))
 			sv.Report(errors.New(msg))
+			reported = true
 			out.Emit("st.report "+verifHex(msg), "ok")
 		}
 	}
+	// in every layer: the stat file is looked up twice more (by now it is a child of the state inode, as the
+	// bridge would have made it) and read
+	stLookup(wantName)
+	stLookup(wantName)
+	stRead()
 }
 
 // ---------------------------------------------------------------------------------------------
@@ -1446,8 +1493,19 @@ func (h *verifC07) genLayer(lower map[string]verifRef, o verifGenOpts) []verifEn
 			add(verifEnt{path: verifJoin(dir, pickName(dir)), kind: 'd', mode: 0755, xattrs: h.genXattrs()})
 		case 2: // whiteout of a lower name or of nothing
 			add(verifEnt{path: verifJoin(dir, verifWh+pickName(dir)), kind: 'f', mode: 0644})
-		case 3: // opaque directory
-			add(verifEnt{path: verifJoin(dir, verifMarker), kind: 'f', mode: 0644})
+		case 3: // opaque directory, sometimes one whose own tar header carries an overlay opaque xattr != "y"
+			if add(verifEnt{path: verifJoin(dir, verifMarker), kind: 'f', mode: 0644}) && rnd.Intn(2) == 0 {
+				for i := range spec {
+					if spec[i].path == dir && spec[i].kind == 'd' {
+						x := map[string]string{}
+						for k, v := range spec[i].xattrs {
+							x[k] = v
+						}
+						x[[]string{"trusted.overlay.opaque", "user.overlay.opaque"}[rnd.Intn(2)]] = []string{"x", "n", "", "yy"}[rnd.Intn(4)]
+						spec[i].xattrs = x
+					}
+				}
+			}
 		case 4: // whiteout and a real non-directory of the same name
 			nme := pickName(dir)
 			if add(verifEnt{path: verifJoin(dir, nme), kind: 'f', data: "both", mode: 0644}) {
@@ -1796,6 +1854,8 @@ func verifScenarios() [][]verifEnt {
 		{verifF(verifMarker), verifF("a"), verifF(".wh.b")},
 		{{path: "foo", kind: 'd', mode: 0755, xattrs: map[string]string{"user.foo": "bar", "trusted.overlay.opaque": "n"}}, verifF("foo/" + verifMarker)},
 		{{path: "foo", kind: 'd', mode: 0755, xattrs: map[string]string{"user.overlay.opaque": "y"}}, verifF("foo/a")},
+		{{path: "foo", kind: 'd', mode: 0755, xattrs: map[string]string{"trusted.overlay.opaque": "x", "user.overlay.opaque": ""}}, verifF("foo/" + verifMarker), verifF("foo/a")},
+		{{path: "foo", kind: 'd', mode: 0755, xattrs: map[string]string{"user.overlay.opaque": "n"}}, verifF("foo/a")},
 		{verifF(estargz.PrefetchLandmark), verifF(estargz.NoPrefetchLandmark), verifF(estargz.TOCTarName), verifD("foo"),
 			verifF("foo/" + estargz.PrefetchLandmark), verifF("foo/" + estargz.NoPrefetchLandmark), verifF("foo/" + estargz.TOCTarName)},
 		{verifF("a/b/c/d"), verifF("a/b/.wh.c2"), verifF("a/" + verifMarker)},
